@@ -1049,3 +1049,10 @@ PROPS["C01"]["lean_modules"].append("EcModel.Props.C01Idx")
 MANIFEST_TEXT["C01"]["text"] += (" C01Idx: the index-window assumption made precise on ghost draw counters along histories (Window); markers_exact, "
                                  "live_idx_unique (outstanding requests have distinct first indices), owner_is_first_match, deliver_exact_reachable "
                                  "(deliver_exact for every reachable storage under Window, no uniqueness hypothesis left); window_needed_counterexample.")
+# C03 under concurrency (added after seed C03b: an unconditional RxDone store in mark_received leaks a slot only when the
+# request is abandoned between two steps of the receive path, which the sequential C03 histories cannot arrange)
+PROPS["C03"]["harness"].append("c03m")
+PROPS["C03"]["drivers"]["c03m"] = "drv_micro"
+PROPS["C03"]["rule"] += (" || c03m: the schedule-controlled runs of C06 (deadlines, retries, drops at arbitrary points incl. while TX/RX are inside the "
+                         "buffer, failed sends, noise) judged only by the capacity monitors: after every handle was dropped each slot is free "
+                         "again, no side panicked; every step's snapshot compared with the micro-step model")
